@@ -1,2 +1,15 @@
 import Ymq.Props.C12
 #print axioms Ymq.C12.siqs_identity
+#print axioms Ymq.C12.siqs_identity_model
+#print axioms Ymq.C12.eval_eq_polyVal
+#print axioms Ymq.C12.min_trick
+#print axioms Ymq.C12.gray_step
+#print axioms Ymq.C12.roots_inv
+#print axioms Ymq.C12.roots_walk
+#print axioms Ymq.C12.poly_exact
+#print axioms Ymq.C12.roots_exact
+#print axioms Ymq.C12.hensel_lift
+#print axioms Ymq.C12.mpqs_identity
+#print axioms Ymq.C12.prepare_prime_exact
+#print axioms Ymq.C12.qs_roots_exact
+#print axioms Ymq.C12.lgblock_shift
